@@ -10,7 +10,7 @@ Open Scope Z_scope.
 Lemma impl_well_locked_l : well_locked impl_prog = true.
 Proof. vm_compute. reflexivity. Qed.
 
-Lemma keys_agree : hdr_test_key = hdr_set_key.
+Lemma keys_agree : hdr_test_key = map lower hdr_set_key.
 Proof. apply str_eqb_eq. vm_compute. reflexivity. Qed.
 
 Lemma set_key_observed : str_eqb (cap hdr_set_key) obs_key = true.
@@ -172,8 +172,40 @@ Proof.
   - destruct He as (n & ->). cbn [nums length]. f_equal. apply IH. exact Hr.
 Qed.
 
-(* ------------------------------------------------------------ caller-supplied id under the documented key *)
+(* ------------------------------------------------------------ caller-supplied id, under any spelling of the header name *)
+(* a spelling of the header name, as do_request sees it: name.lower() == KEY *)
+Definition is_spelling (k : str) : bool := str_eqb (map lower k) hdr_test_key.
+(* not a spelling, as urllib sees it: name.capitalize() <> 'X-request-id' *)
 Definition other_key (kv : list Z * list Z) : Prop := str_eqb (cap (fst kv)) obs_key = false.
+
+Lemma upper_lower_iff a b : upper a = upper b <-> lower a = lower b.
+Proof.
+  unfold upper, lower.
+  destruct (Z.leb_spec 97 a), (Z.leb_spec a 122), (Z.leb_spec 97 b), (Z.leb_spec b 122),
+           (Z.leb_spec 65 a), (Z.leb_spec a 90), (Z.leb_spec 65 b), (Z.leb_spec b 90); cbn [andb]; lia.
+Qed.
+
+(* str.capitalize() and str.lower() identify the same names (ASCII) *)
+Lemma cap_eq_lower k s : cap k = cap s <-> map lower k = map lower s.
+Proof.
+  destruct k as [|a k], s as [|b s]; cbn [cap map]; try (split; intros H; discriminate); [tauto|].
+  split; intros H; injection H as H1 H2; f_equal; try exact H2; apply upper_lower_iff; exact H1.
+Qed.
+
+Lemma str_eqb_iff (a b c d : str) : (a = b <-> c = d) -> str_eqb a b = str_eqb c d.
+Proof.
+  intros [H1 H2].
+  destruct (str_eqb a b) eqn:E1, (str_eqb c d) eqn:E2; try reflexivity.
+  - apply str_eqb_eq in E1. rewrite (H1 E1), str_eqb_refl in E2. discriminate.
+  - apply str_eqb_eq in E2. rewrite (H2 E2), str_eqb_refl in E1. discriminate.
+Qed.
+
+(* what urllib files under the observed name is exactly what do_request's test recognises *)
+Lemma spelling_iff k : str_eqb (cap k) obs_key = is_spelling k.
+Proof.
+  unfold is_spelling. rewrite keys_agree, <- (str_eqb_eq _ _ set_key_observed).
+  apply str_eqb_iff. apply cap_eq_lower.
+Qed.
 
 Lemma sent_value_app a b acc : sent_value (a ++ b) acc = sent_value b (sent_value a acc).
 Proof.
@@ -187,16 +219,45 @@ Proof.
   cbn [sent_value]. rewrite Hk. apply IH. exact Hr.
 Qed.
 
-Lemma caller_value_l h1 h2 v :
-  Forall other_key h1 -> Forall other_key h2 ->
-  let h := h1 ++ (hdr_test_key, v) :: h2 in
+(* one spelling, whichever: recognised, and its value is what is sent *)
+Lemma caller_value_l h1 h2 k v :
+  is_spelling k = true -> Forall other_key h1 -> Forall other_key h2 ->
+  let h := h1 ++ (k, v) :: h2 in
   supplied h = true /\ sent_value h None = Some v.
 Proof.
-  intros H1 H2 h. split.
-  - unfold h, supplied, key_in. rewrite existsb_app. cbn [existsb fst].
-    rewrite str_eqb_refl. rewrite orb_true_r. reflexivity.
+  intros Hk H1 H2 h. split.
+  - unfold h, supplied, supplied_test. rewrite existsb_app. cbn [existsb fst].
+    fold (is_spelling k). rewrite Hk. rewrite orb_true_r. reflexivity.
   - unfold h. rewrite sent_value_app. cbn [sent_value].
-    rewrite keys_agree, set_key_observed. rewrite sent_value_other by exact H2. reflexivity.
+    rewrite spelling_iff, Hk. rewrite sent_value_other by exact H2. reflexivity.
+Qed.
+
+Lemma supplied_false_other h : supplied h = false -> Forall other_key h.
+Proof.
+  unfold supplied, supplied_test. induction h as [|[k v] r IH]; intros H; [constructor|].
+  cbn [existsb fst] in H. apply orb_false_elim in H as [H1 H2].
+  constructor; [|exact (IH H2)]. unfold other_key. cbn [fst]. rewrite spelling_iff. exact H1.
+Qed.
+
+(* several spellings in one dict: recognised, and the LAST one (dict order) is what urllib keeps *)
+Lemma supplied_split h : supplied h = true ->
+  exists h1 k v h2, h = h1 ++ (k, v) :: h2 /\ is_spelling k = true /\ Forall other_key h2.
+Proof.
+  induction h as [|[k v] r IH]; intros H; [discriminate|].
+  destruct (supplied r) eqn:Er.
+  - destruct (IH eq_refl) as (h1 & k' & v' & h2 & -> & Hk & H2).
+    exists ((k, v) :: h1), k', v', h2. repeat split; assumption.
+  - exists [], k, v, r. split; [reflexivity|]. split; [|exact (supplied_false_other r Er)].
+    unfold supplied, supplied_test in H, Er. cbn [existsb fst] in H. rewrite Er, orb_false_r in H. exact H.
+Qed.
+
+Lemma supplied_value_l h : supplied h = true ->
+  exists h1 k v h2, h = h1 ++ (k, v) :: h2 /\ is_spelling k = true /\ Forall other_key h2 /\
+                    sent_value h None = Some v.
+Proof.
+  intros H. destruct (supplied_split h H) as (h1 & k & v & h2 & -> & Hk & H2).
+  exists h1, k, v, h2. repeat split; try assumption.
+  rewrite sent_value_app. cbn [sent_value]. rewrite spelling_iff, Hk. apply sent_value_other. exact H2.
 Qed.
 
 (* ------------------------------------------------------------ ids disabled: nothing is generated *)
@@ -335,18 +396,28 @@ Qed.
 Definition x_lower : list Z := [120;45;114;101;113;117;101;115;116;45;105;100].   (* "x-request-id" *)
 Definition mine : list Z := [109;105;110;101].
 
-(* a caller who spells the header name differently gets the id replaced, and a number is used *)
-Lemma respelled_l :
-  let st := exec [] impl_prog (repeat 0%nat 8) (init (Some 0) [[[(x_lower, mine)]]]) in
-  supplied [(x_lower, mine)] = false /\
-  map out (threads st) = [[Sent (Some 0) (Some (fmt [] 0))]] /\ ctr st = Some 1 /\
-  fmt [] 0 <> mine.
-Proof. vm_compute. repeat split; discriminate. Qed.
+Definition x_caps : list Z := [88;45;82;69;81;85;69;83;84;45;73;68].              (* "X-REQUEST-ID" *)
+Definition other_id : list Z := [111;116;104;101;114].                              (* "other" *)
 
-(* ... while the documented spelling is passed on *)
-Lemma exact_l :
-  let st := exec [] impl_prog (repeat 0%nat 3) (init (Some 0) [[[(hdr_test_key, mine)]]]) in
+(* a caller who spells the header name differently is treated like any other: id sent unchanged, no number used
+   (before fix 2323115 of /repo the id was replaced by a generated one and number 0 was used) *)
+Lemma respelled_l :
+  let st := exec [] impl_prog (repeat 0%nat 3) (init (Some 0) [[[(x_lower, mine)]]]) in
+  supplied [(x_lower, mine)] = true /\
   map out (threads st) = [[Sent None (Some mine)]] /\ ctr st = Some 0 /\ finished st.
+Proof. vm_compute. repeat split. repeat constructor. Qed.
+
+(* the documented spelling *)
+Lemma exact_l :
+  let st := exec [] impl_prog (repeat 0%nat 3) (init (Some 0) [[[(hdr_set_key, mine)]]]) in
+  map out (threads st) = [[Sent None (Some mine)]] /\ ctr st = Some 0 /\ finished st.
+Proof. vm_compute. repeat split. repeat constructor. Qed.
+
+(* two spellings in one dict: both are the caller's, urllib keeps the one that comes last in the dict; no number used *)
+Lemma two_spellings_l :
+  let st := exec [] impl_prog (repeat 0%nat 6)
+                 (init (Some 0) [[[(hdr_set_key, mine); (x_caps, other_id)]; [(x_caps, other_id); (hdr_set_key, mine)]]]) in
+  map out (threads st) = [[Sent None (Some mine); Sent None (Some other_id)]] /\ ctr st = Some 0 /\ finished st.
 Proof. vm_compute. repeat split. repeat constructor. Qed.
 
 (* a complete interleaved run of two threads, one of which is blocked on the lock for a while *)
@@ -474,11 +545,11 @@ Definition xother_hdr : list Z * list Z := ([88;45;79;116;104;101;114], [49]).  
 
 (* an EMPTY caller-supplied id is an id: sent as it is, no number used; the next request gets number c0 *)
 Lemma empty_id_l :
-  let st := exec [] impl_prog (repeat 0%nat 11) (init (Some 0) [[[(hdr_test_key, [])]; []]]) in
+  let st := exec [] impl_prog (repeat 0%nat 11) (init (Some 0) [[[(hdr_set_key, [])]; []]]) in
   map out (threads st) = [[Sent (Some 0) (Some (fmt [] 0)); Sent None (Some [])]] /\ ctr st = Some 1 /\ finished st.
 Proof. vm_compute. repeat split. repeat constructor. Qed.
 
-Lemma other_keys_l : Forall other_key [accept_hdr] /\ Forall other_key [xother_hdr] /\ sent_value ([accept_hdr] ++ (hdr_test_key, mine) :: [xother_hdr]) None = Some mine.
+Lemma other_keys_l : is_spelling x_caps = true /\ Forall other_key [accept_hdr] /\ Forall other_key [xother_hdr] /\ sent_value ([accept_hdr] ++ (x_caps, mine) :: [xother_hdr]) None = Some mine.
 Proof. vm_compute. repeat split; repeat constructor. Qed.
 
 (* the 4-digit part wraps at fmt_mod, the id does not: numbers 3 and 10003 share the first part and differ in the tail;
@@ -489,7 +560,7 @@ Proof. vm_compute. repeat split; discriminate. Qed.
 
 (* ids disabled: a run of two threads *)
 Lemma disabled_run_l :
-  let st := exec [] impl_prog [0; 1; 0; 1; 0; 1]%nat (init None [[[]]; [[(hdr_test_key, mine)]]]) in
+  let st := exec [] impl_prog [0; 1; 0; 1; 0; 1]%nat (init None [[[]]; [[(hdr_set_key, mine)]]]) in
   finished st /\ map out (threads st) = [[Sent None None]; [Sent None (Some mine)]] /\ ctr st = None.
 Proof. vm_compute. split; [repeat constructor|]. split; reflexivity. Qed.
 
